@@ -61,6 +61,7 @@ Definition sl (ch f : N) : scell := (WL ch, f).
 Definition sr (f : N) : scell := (WR, f).
 Definition so (f : N) : scell := (Orphan, f).
 Definition rsz (h w : N) (g : grid scell) : op := Resize (N.to_nat h) (N.to_nat w) g.
+Definition ffr (k : N) : op := FailFrame (N.to_nat k).
 
 (* an iteration of the render loop in case files *)
 Definition itr (a : N) (s : grid cell) (frame : bool) (p : option N) (k : N) (rz : bool) : iter :=
@@ -74,6 +75,11 @@ Inductive c01_case :=
          (fsp fer : list (N * N)) (ers : list N)
          (g : grid scell) (foreign : list (N * N * N)) (s : grid cell) (impl : list cmd) (good : bool)
     (* TerminalRenderer::new(term, true) on a terminal showing g with placements [foreign]; draw s; frame *)
+| FHist (h w : N) (widths : list (N * N)) (isizes : list (N * (N * N)))
+        (fsp fer : list (N * N)) (ers : list N)
+        (g : grid scell) (foreign : list (N * N * N)) (ops : list op) (impl : list (list cmd))
+    (* a renderer re-created WITHOUT clear(): TerminalRenderer::new(term, true) on a terminal that still shows g and
+       the placements [foreign] (what a previous renderer left), then a whole history *)
 | Loop (h w : N) (widths : list (N * N)) (isizes : list (N * (N * N)))
        (fsp fer : list (N * N)) (ers : list N)
        (its : list iter) (impl : list (bool * list cmd)) (good stale : bool).
@@ -105,6 +111,11 @@ Fixpoint sized_surfaces (h w : nat) (ops : list op) : list (nat * nat * grid cel
 Definition resizes_ok (ops : list op) : bool :=
   forallb (fun x => match x with Resize h w g => grid_dims g h w | _ => true end) ops.
 
+(* a history with an aborted frame (frame() returned Err) is outside the theorems and outside the exact
+   predicate (images placed by the aborted frame may stay); it is judged by resume_run alone *)
+Definition has_fail (ops : list op) : bool :=
+  existsb (fun x => match x with FailFrame _ => true | _ => false end) ops.
+
 Definition c01_check (k : c01_case) : bool * bool :=
   match k with
   | Hist hN wN widths isizes fsp fer ers ops impl oii owi oww =>
@@ -126,7 +137,10 @@ Definition c01_check (k : c01_case) : bool * bool :=
         && (negb dom || resume_run o h w (blank_screen h w) (gmake h w cell_default) (Some []) ops impl),
         (* outside the property's domain (zero-width characters, a wide character in the
            last column, empty images) only the agreement of model and code is checked *)
-        (negb dom || spec_run o h w (blank_screen h w) (gmake h w cell_default) ops impl)
+        (negb dom
+         || (if has_fail ops
+             then resume_run o h w (blank_screen h w) (gmake h w cell_default) (Some []) ops impl
+             else spec_run o h w (blank_screen h w) (gmake h w cell_default) ops impl))
         (* and, whatever is drawn: a frame that repeats the previous one issues nothing (C01_idle_frame) *)
         && idle_ok o h w (Some (gmake h w cell_default)) (gmake h w cell_default) ops impl )
   | Forced hN wN widths isizes fsp fer ers g foreign s impl good =>
@@ -143,6 +157,18 @@ Definition c01_check (k : c01_case) : bool * bool :=
             let sh := show o h w s in
             sgrid_eqb (sgrid scr') (sgrid sh) && negb (err scr')
             && places_eqb (places scr') (fp ++ places sh)) )
+  | FHist hN wN widths isizes fsp fer ers g foreign ops impl =>
+      let h := N.to_nat hN in
+      let w := N.to_nat wN in
+      let o := mk_oracle widths isizes fsp fer ers in
+      let fp := map (fun '(i, r, c) => (i, N.to_nat r, N.to_nat c)) foreign in
+      let dom := forallb (fun '(h, w, g) => in_domain o h w g) (sized_surfaces h w ops) && resizes_ok ops
+                 && grid_dims g h w in
+      ( list_eqb (list_eqb cmd_eqb) (rrun o (rnew h w true) ops) impl,
+        (* C01_forced_history on the implementation's commands: every frame that is judged (Spec.resume_run) shows
+           its surface, and the terminal places nothing besides it and what it placed at the start *)
+        negb dom
+        || resume_run o h w (mkscreen h w g fp (0, 0) face_default false) (gmake h w cell_default) (Some fp) ops impl )
   | Loop hN wN widths isizes fsp fer ers its impl good stale =>
       let h := N.to_nat hN in
       let w := N.to_nat wN in
